@@ -21,7 +21,16 @@ def _env():
     return env
 
 
+import threading
+_BUILD_LOCK = threading.Lock()
+
+
 def build_replay_tool():
+    with _BUILD_LOCK:
+        return _build_replay_tool()
+
+
+def _build_replay_tool():
     global REPLAY_DIR
     repo = os.environ.get("VERIF_REPO", "/repo")
     if repo != "/repo":
@@ -147,6 +156,27 @@ def shape_candidates(spec):
         hdr = "None" if hs == 0 else "Some([%s])" % ", ".join(str(9 + j) for j in range(max(0, hs - 1)))
         x = {"kind": "sigflow", "suite": sh.get("suite", "sha"), "msgs": "[" + ", ".join(_fmt(m) for m in msgs) + "]", "hdr": hdr, "msgs_none": sh.get("msgs_none", "false")}
         return ["\n".join("TRANSPORT %s=%s" % (k, v if isinstance(v, str) else _fmt(v)) for k, v in x.items())]
+    def hshape(hs):
+        return "None" if hs == 0 else "Some([%s])" % ", ".join(str(9 + j) for j in range(max(0, hs - 1)))
+    def nested(ms):
+        return "[" + ", ".join(_fmt(m) for m in ms) + "]"
+    if str(sh.get("contract", "")).startswith("proof_gen"):
+        L = sh.get("L", 0)
+        mask = sh.get("disclosed_mask", 0)
+        idx = [i for i in range(L) if (mask >> i) & 1]
+        if sh.get("index_presentation") == 1:
+            idx = idx[::-1]
+        elif sh.get("index_presentation") == 2 and idx:
+            idx = idx + [idx[0]]
+        msgs = [[7 + i] * ((i + L % 3) % 3) for i in range(L)]
+        x = {"kind": "proofflow", "suite": sh.get("suite", "sha"), "msgs": nested(msgs), "hdr": hshape(sh.get("header_shape", 0)),
+             "ph": hshape(sh.get("ph_shape", 0)), "idx": _fmt(idx), "edit": sh.get("edit", 0)}
+        return ["\n".join("TRANSPORT %s=%s" % (k, v) for k, v in x.items())]
+    if str(sh.get("contract", "")).startswith("commit ->"):
+        L, M = sh.get("L", 0), sh.get("M", 0)
+        x = {"kind": "blindflow", "suite": sh.get("suite", "sha"), "msgs": nested([[7 + i] * ((i + 1) % 3) for i in range(L)]),
+             "cmsgs": nested([[3 + i] * ((i + 2) % 3) for i in range(M)]), "hdr": hshape(sh.get("header_shape", 0))}
+        return ["\n".join("TRANSPORT %s=%s" % (k, v) for k, v in x.items())]
     if not ent or spec.replay != "op":
         return []
     base = {"kind": "op", "entry": ent, "suite": sh.get("suite", "sha"), "pk": 5,
